@@ -146,7 +146,12 @@ def builder(ctx, prog):
                     msg = msg or "push does not advance `inited` by exactly one"
                 ok = True
             elif p.kind == "panic":
-                pass
+                # `self` is `&mut`: it outlives the panic (Drop runs on it while unwinding, catch_unwind hands it back), so a panicking
+                # path must leave the invariant `array[..inited]` initialised intact - it may not have touched `inited`
+                newv = p.heap.get(("p", 1))
+                if newv is not None and sym.mk_field(newv, 1) != inited:
+                    msg = msg or ("a panicking path leaves `inited` = %s behind: Drop / as_slice would then cover a slot that was never "
+                                  "written" % show(sym.mk_field(newv, 1)))
         if not ok:
             msg = msg or "push has no returning path"
         if msg:
